@@ -36,14 +36,14 @@ GhostRestart(g) == [g EXCEPT !.ga = [e \in EonSet |-> IF g.gp[e] # None THEN Nul
 StartOf(g, e, q) == IF g.ga[e] = Null \/ g.ga[e] > MaxAge THEN Len(q) ELSE g.gp[e]
 
 RECURSIVE GasSum(_, _, _)
-GasSum(q, a, b) == IF a > b THEN 0 ELSE GasOf(q[a].g) + GasSum(q, a + 1, b)
+GasSum(q, a, b) == IF a > b THEN GasZero ELSE GasAdd(GasOf(q[a].g), GasSum(q, a + 1, b))
 
 (* number of queued transactions to take from index `start`: as many as stay within the gas
    limit cumulatively, but at least one when one is queued *)
 Taken(q, start) ==
     LET avail == Len(q) - start IN
     IF start < 0 \/ avail <= 0 THEN 0
-    ELSE LET fits == {j \in 0..avail : GasSum(q, start + 1, start + j) <= GasLimit}
+    ELSE LET fits == {j \in 0..avail : ~GasExceeds(GasSum(q, start + 1, start + j), GasLimit)}
              k == CHOOSE j \in fits : \A i \in fits : i <= j
          IN Max2(k, 1)
 
